@@ -65,6 +65,70 @@ RULE_D1 = ("TLC enumerates the behaviours of spec/MC_Session.tla for the stated 
            "is replayed on the real code for concrete protocol names of its class; distinct = distinct (scenario, name) pairs; ")
 
 
+def validate_trace(path, name):
+    """Validate an NDJSON trace with spec/SnowTrace.tla. Returns (events, rejected_line_or_None, event)."""
+    os.environ["TRACE_FILE"] = path
+    try:
+        t = run_tlc("SnowTrace", dict(FullRollback=True, KeepHist=False), name=name, workers=1, timeout=3000,
+                    spec="TraceSpec", constraint="Progress", extra_cfg="POSTCONDITION TraceAccepted\n",
+                    queue="StateDeque")
+    finally:
+        del os.environ["TRACE_FILE"]
+    acc = [ln for ln in open(t["out"]) if ln.startswith('<<"ACCEPTED"')]
+    rej = [ln for ln in open(t["out"]) if ln.startswith('<<"REJECTED"')]
+    if acc:
+        return t, None, None
+    if not rej:
+        raise ToolError("trace validation produced neither ACCEPTED nor REJECTED")
+    info = json.loads(json.loads(rej[0].strip()[len('<<"REJECTED", '):-2]))
+    return t, info["line"], info["event"]
+
+
+def d2(prop, profile, sessions, seed, all_names=False):
+    """Leg D2: record a trace from real executions and validate it against the trace specification."""
+    names = name_table()
+    d = os.path.join(WORK, f"{prop.lower()}-d2-{profile}")
+    os.makedirs(d, exist_ok=True)
+    nd = os.path.join(d, "trace.ndjson")
+    args = ["trace", "--names", names, "--seed", str(seed), "--sessions", str(sessions), "--profile", profile, "--out", nd]
+    if all_names:
+        args.append("--all-names")
+    rc, out = harness(args)
+    info = json.loads(out.strip().splitlines()[-1])
+    t, line, ev = validate_trace(nd, f"{prop.lower()}-d2-{profile}")
+    viol = []
+    lines = open(nd).read().splitlines()
+    if line is not None:
+        start = max(k for k in range(line) if json.loads(lines[k])["ev"] == "session")
+        os.makedirs(os.path.join(REPLAYS, prop), exist_ok=True)
+        p = os.path.join(REPLAYS, prop, "trace-" + hashlib.sha256("\n".join(lines[start:line]).encode()).hexdigest()[:12] + ".ndjson")
+        open(p, "w").write("\n".join(lines[start:line]) + "\n")
+        sess = json.loads(lines[start])
+        viol.append(dict(op=ev.get("ev", ""), what="trace_rejected", cause=profile, expected="a behaviour of spec/SnowTrace.tla",
+                         observed=json.dumps(ev)[:300], replay=p, name=sess.get("name", "")))
+    samples = [json.loads(x) for x in lines[3:6]]
+    os.remove(nd)
+    log(f"D2 {profile}: {info['sessions']} sessions, {info['events']} events, {'REJECTED at %s' % line if line else 'accepted'}")
+    return dict(tlc=t, sessions=info["sessions"], events=info["events"], violations=viol, samples=samples, profile=profile)
+
+
+def add_d2(res, d2s):
+    c = res["coverage"]
+    c["d2_traces"] = [dict(profile=x["profile"], sessions=x["sessions"], events=x["events"]) for x in d2s]
+    c["traces_validated_against_impl"] = c.get("traces_validated_against_impl", 0) + sum(x["sessions"] for x in d2s)
+    c["evaluations"] = c.get("evaluations", 0) + sum(x["events"] for x in d2s)
+    c["states"] = c.get("states", 0) + sum(x["tlc"]["distinct"] for x in d2s)
+    c["transitions"] = c.get("transitions", 0) + sum(x["tlc"]["states"] for x in d2s)
+    c["samples"] = c.get("samples", [])[:4] + [dict(d2_event=s) for x in d2s for s in x["samples"][:1]]
+    c["rule"] = c.get("rule", "") + ("; D2: protocol-agnostic random drivers (real OsRng, keys from generate_keypair) record one event "
+                                    "per public call; spec/SnowTrace.tla re-executes the specification's actions on the logged "
+                                    "arguments and requires the logged result/lengths/flags/nonces, with a functional+injective "
+                                    "binding between logged value-ids and predicted terms")
+    for x in d2s:
+        res["violations"] += x["violations"]
+    return res
+
+
 def c01(tier, seed):
     if tier == "quick":
         t = session("c01-honest", PskMode="single")
@@ -86,10 +150,14 @@ def c02(tier, seed):
     else:
         t = session("c02-honest", PskMode="all", Profiles=["zero", "small", "tag", "mid", "max"], BufModes=["big", "exact"])
         r = replay("C02", t, seed, 3, threads=14)
-    return merge("model_checking", [t], [r], RULE_D1 +
+    res = merge("model_checking", [t], [r], RULE_D1 +
                  "here: honest sessions with payload profiles zero/tag-sized/maximum-fit (65535 minus the model-computed "
                  "overhead), stateful and stateless, mixed-direction transport traffic; TLC checks Completes, Agreement, "
                  "Delivery, RawSplitAgrees on every state", ASSUME_SYMBOLIC)
+    d = [d2("C02", "honest", 400 if tier == "quick" else 13344, seed, all_names=(tier != "quick"))]
+    if tier != "quick":
+        d.append(d2("C02", "long", 300, seed))
+    return add_d2(res, d)
 
 
 FAULTS_ALL = ["wbuf", "wmax", "turn", "ralt", "rtrunc", "rext", "rstale", "routbuf"]
